@@ -1,7 +1,10 @@
 // Harness for tulz::LocaleInfo::get (C19). Each execution carries a list of NUL-free input strings
 // (hex encoded); for every string the returned Info is reported WITHOUT dereferencing pointers that are
 // not table entries. The stack is pre-filled with a poison pattern so that uninitialised fields show.
+#include <atomic>
 #include <cstring>
+#include <mutex>
+#include <thread>
 #include <set>
 #include <string>
 #include <vector>
@@ -69,6 +72,23 @@ std::string field(const char *p, const std::set<const char *> &table, const char
     return b;
 }
 
+std::string describe(const LocaleInfo::Info &r) {
+    std::string s = std::string("\"err\":") + (r.error ? "true" : "false");
+    s += ",\"code\":" + field(r.languageCode, g_lang_codes, "en");
+    s += ",\"country\":" + field(r.country, g_country_names, "United Kingdom");
+    s += ",\"ccode\":" + field(r.countryCode, g_country_codes, "GB");
+    s += ",\"names\":[";
+    bool first = true;
+    size_t n = 0;
+    for (const char *p : r.languages) {
+        if (++n > 20) break;
+        if (!first) s += ",";
+        first = false;
+        s += field(p, g_lang_names, "English");
+    }
+    return s + "]";
+}
+
 void run_exec(const Execution &ex) {
     tables();
     if (ex.cfg.num("dump", 0)) {
@@ -95,22 +115,38 @@ void run_exec(const Execution &ex) {
         poison_stack();
         // pre=1: the answers recorded before main() (the script lists the same strings in the same order)
         LocaleInfo::Info r = pre && (size_t) i < g_premain.res.size() && in == kPreMain[i] ? g_premain.res[i] : LocaleInfo::get(buf);
-        std::string s = "\"e\":\"Res\",\"i\":" + std::to_string(i) + ",\"err\":" + (r.error ? "true" : "false");
-        s += ",\"code\":" + field(r.languageCode, g_lang_codes, "en");
-        s += ",\"country\":" + field(r.country, g_country_names, "United Kingdom");
-        s += ",\"ccode\":" + field(r.countryCode, g_country_codes, "GB");
-        s += ",\"names\":[";
-        bool first = true;
-        size_t n = 0;
-        for (const char *p : r.languages) {
-            if (++n > 20) break;
-            if (!first) s += ",";
-            first = false;
-            s += field(p, g_lang_names, "English");
-        }
-        out().raw(s + "]");
+        out().raw("\"e\":\"Res\",\"i\":" + std::to_string(i) + "," + describe(r));
         delete[] buf;
         ++i;
+    }
+    if (ex.cfg.num("conc", 0) != 0) {
+        // get() is a function of its argument: the answers must not depend on who else is inside it at the same time.
+        // The serial answers (just reported and judged against the model) are the reference; four free-running threads ask
+        // again, each in its own order.
+        std::vector<std::string> ins, ref;
+        for (const auto &st : ex.steps) ins.push_back(unhex(st.str("s", "")));
+        for (auto &in : ins) ref.push_back(describe(LocaleInfo::get(in.c_str())));
+        std::atomic<long> mismatches{0}, calls{0};
+        std::string first_bad;
+        std::mutex mu;
+        std::vector<std::thread> ths;
+        for (int t = 0; t < 4; ++t)
+            ths.emplace_back([&, t] {
+                for (int rep = 0; rep < 150; ++rep)
+                    for (size_t k = 0; k < ins.size(); ++k) {
+                        size_t j = (k * (2 * t + 1) + rep) % ins.size();
+                        std::string got = describe(LocaleInfo::get(ins[j].c_str()));
+                        ++calls;
+                        if (got != ref[j]) {
+                            if (mismatches++ == 0) {
+                                std::lock_guard<std::mutex> g(mu);
+                                first_bad = ins[j];
+                            }
+                        }
+                    }
+            });
+        for (auto &th : ths) th.join();
+        out().raw("\"e\":\"Conc\",\"calls\":" + std::to_string(calls.load()) + ",\"mismatches\":" + std::to_string(mismatches.load()) + ",\"first\":" + jstr(first_bad));
     }
 }
 
